@@ -10,6 +10,7 @@ import (
 	"os"
 	"runtime"
 	"sort"
+	"strconv"
 	"strings"
 	"sync"
 	"time"
@@ -35,7 +36,76 @@ type caseResult struct {
 }
 
 // ids maps block hashes to the small numbers the Lean driver uses (0 = felt.Zero).
-type ids struct{ m map[string]int }
+type ids struct {
+	m map[string]int
+	// per honest block (by hash): the id of its state diff (0 = empty) and the MODEL's state root after
+	// it (computed by the Lean driver, op `roots`, from the diff ids of its chain)
+	diff map[string]int
+	root map[string]int
+}
+
+const freshRootBase = 3_000_000_000 // above every value of the model's rootStep (mod 2147483647)
+const freshDiffBase = 1_000_000
+
+// learnRoots asks the driver for the model's state roots of every chain of the source.
+func (i *ids) learnRoots(drv *lib.Driver, chains [][]*lib.Bundle) error {
+	i.diff, i.root = map[string]int{}, map[string]int{}
+	for ci, c := range chains {
+		if len(c) == 0 {
+			continue
+		}
+		fresh := ci == 0
+		for _, b := range c {
+			if _, ok := i.root[b.Block.Hash.String()]; !ok {
+				fresh = true
+			}
+		}
+		if !fresh {
+			continue
+		}
+		var w []string
+		for _, b := range c {
+			d := 0
+			if diffSize(b.SU.StateDiff) > 0 || len(b.Classes) > 0 {
+				d = i.of(b.Block.Hash)
+			}
+			i.diff[b.Block.Hash.String()] = d
+			w = append(w, strconv.Itoa(d))
+		}
+		if drv == nil {
+			continue
+		}
+		a, err := drv.Ask("roots " + strings.Join(w, " "))
+		if err != nil {
+			return err
+		}
+		rs := strings.Split(a, ",")
+		if len(rs) != len(c) {
+			return fmt.Errorf("driver answered %q to roots of %d blocks", a, len(c))
+		}
+		for k, b := range c {
+			v, err := strconv.Atoi(rs[k])
+			if err != nil {
+				return fmt.Errorf("driver answered %q to roots", a)
+			}
+			i.root[b.Block.Hash.String()] = v
+		}
+	}
+	return nil
+}
+
+// claim returns the (diff id, claimed root) part of a token for an answer derived from the honest
+// block orig: the honest values where the answer kept them, fresh ones where it changed them.
+func (i *ids) claim(orig, hash *felt.Felt, diffSame, rootSame bool) (int, int) {
+	d, r := i.diff[orig.String()], i.root[orig.String()]
+	if !diffSame {
+		d = freshDiffBase + i.of(hash)
+	}
+	if !rootSame {
+		r = freshRootBase + i.of(hash)
+	}
+	return d, r
+}
 
 func (i *ids) of(f *felt.Felt) int {
 	if f.IsZero() {
@@ -58,7 +128,8 @@ func b2i(b bool) int {
 }
 
 func token(i *ids, b *lib.Bundle, ok bool) string {
-	return fmt.Sprintf("%d:%d:%d:%d", b.Block.Number, i.of(b.Block.Hash), i.of(b.Block.ParentHash), b2i(ok))
+	d, r := i.claim(b.Block.Hash, b.Block.Hash, true, true)
+	return fmt.Sprintf("%d:%d:%d:%d:%d:%d", b.Block.Number, i.of(b.Block.Hash), i.of(b.Block.ParentHash), b2i(ok), d, r)
 }
 
 func chainTokens(i *ids, c []*lib.Bundle) string {
@@ -129,6 +200,15 @@ func analyse(sc Scenario, out *outcome, drv *lib.Driver) *caseResult {
 		return cr
 	}
 	id := &ids{m: map[string]int{}}
+	if out.chains != nil {
+		if err := id.learnRoots(drv, out.chains); err != nil {
+			cr.fatal = "Lean driver died or answered short (roots): " + err.Error()
+			return cr
+		}
+	}
+	if out.selfErr != "" {
+		cr.fatal = "the harness's forged-block generator failed: " + out.selfErr
+	}
 	replay := func() any {
 		return map[string]any{"scenario": sc, "trace": traceStrings(id, out.log),
 			"final_source_chain_len": len(out.chains[len(out.chains)-1]), "final_node_chain_len": len(out.finalChain)}
@@ -159,6 +239,9 @@ func analyse(sc Scenario, out *outcome, drv *lib.Driver) *caseResult {
 		cr.hits[k] += v
 	}
 	for k, v := range out.persisted {
+		if strings.HasPrefix(k, "forged:") {
+			k = fmt.Sprintf("%s(dst-new-state=%v)", k, sc.DstNew)
+		}
 		cr.hits[k] += v
 	}
 
@@ -197,6 +280,7 @@ func analyse(sc Scenario, out *outcome, drv *lib.Driver) *caseResult {
 	}
 	epoch := sc.StartEpoch
 	servedValid := map[string]bool{}
+	servedForged := map[string]entry{} // self-consistent forged answers (not the valid twins)
 	var stores []entry
 	var revRuns [][]entry // per store: the reverts that preceded it
 	var curRun []entry
@@ -214,10 +298,22 @@ func analyse(sc Scenario, out *outcome, drv *lib.Driver) *caseResult {
 		case eServed:
 			if e.Valid {
 				servedValid[e.Hash.String()] = true
+			} else if strings.HasPrefix(e.Fault, "forged:") {
+				servedForged[e.Hash.String()] = e
 			}
 		case eStored:
 			cr.hits["commit:stored"]++
-			if !e.Valid {
+			if f, forged := servedForged[e.Hash.String()]; !e.Valid && (forged || strings.HasPrefix(e.Note, stateRootPrefix)) {
+				backend := "legacy state backend (blockchain/statebackend/deprecated.go, core/deprecatedstate)"
+				if sc.DstNew {
+					backend = "new state backend (blockchain/statebackend/statebackend.go, core/state)"
+				}
+				viol("stored-block-whose-claimed-state-root-is-not-the-root-of-the-resulting-state", fmt.Sprintf(
+					"block %d was STORED although the state root it claims is not the root of the state that results from applying its diff (%s; answer kind %q: "+
+						"a self-consistent forged block — right number and parent, recomputed hash, matching state update — which only Store's root verification can refuse); %s. "+
+						"From here on RevertHead of this block fails and the node cannot follow the source", e.Num, backend, f.Fault, e.Note))
+				cr.hits["forged:STORED"]++
+			} else if !e.Valid {
 				viol("stored-block-is-not-a-verified-block-of-the-source", fmt.Sprintf("block %d stored with content that differs from the valid block: %s", e.Num, e.Note))
 			} else if !servedValid[e.Hash.String()] {
 				viol("stored-block-never-served", fmt.Sprintf("block %d was stored but the source never served it untampered", e.Num))
@@ -254,6 +350,12 @@ func analyse(sc Scenario, out *outcome, drv *lib.Driver) *caseResult {
 				}
 				switch cause {
 				case "source-changed-again":
+				case "forged-answer":
+					// revertTask's request was answered with a self-consistent forged block: it passes
+					// SanityCheckNewHeight and differs from the head, so the head is reverted (nothing short of
+					// applying the block could tell); the forged block itself is never stored and the node fetches
+					// the honest block again
+					cr.hits["revert:on-self-consistent-forged-answer(unavoidable, block re-fetched)"]++
 				case "stale-successor":
 					cr.hits["revert:on-successor-fetched-before-reorg"]++
 					viol("reverted-live-block-on-successor-fetched-before-the-reorg", fmt.Sprintf(
@@ -446,7 +548,7 @@ func analyse(sc Scenario, out *outcome, drv *lib.Driver) *caseResult {
 	for _, e := range out.log {
 		switch e.Kind {
 		case eServed:
-			l := fmt.Sprintf("served %d %d:%d:%d:%d", e.Req, e.Num, id.of(&e.Hash), id.of(&e.Parent), b2i(e.Valid))
+			l := fmt.Sprintf("served %d %s", e.Req, tokenOf(id, e))
 			if !seenServed[l] { // the relation only looks at the set of answers
 				seenServed[l] = true
 				lines = append(lines, l)
@@ -458,9 +560,11 @@ func analyse(sc Scenario, out *outcome, drv *lib.Driver) *caseResult {
 				lines = append(lines, l)
 			}
 		case eStored:
-			if e.Valid {
+			if _, forged := servedForged[e.Hash.String()]; e.Valid || forged {
+				// (a stored forged block: the acceptor itself must refuse it — wrong state root)
 				lines = append(lines, fmt.Sprintf("S %d %d", e.Num, id.of(&e.Hash)))
-			} else {
+			}
+			if !e.Valid {
 				par := 0
 				if n := len(accChain); n > 0 {
 					par = accChain[n-1]
@@ -703,6 +807,9 @@ func revertCause(before []entry, x entry) (string, string) {
 		if e.Kind == eServed && strings.HasPrefix(e.Fault, "corrupt:hash") {
 			return "hash-altered-answer", e.Fault
 		}
+		if e.Kind == eServed && strings.HasPrefix(e.Fault, "forged:") && e.Num == x.Num && !e.Hash.Equal(&x.Hash) {
+			return "forged-answer", e.Fault
+		}
 		if e.Kind == eServed && e.Num != e.Req && !strings.HasPrefix(e.Fault, "corrupt:") {
 			return "wrong-number-answer", fmt.Sprintf("block %d", e.Num)
 		}
@@ -892,6 +999,29 @@ func hashLieScenario(seed uint64, dstNew bool) Scenario {
 		Faults: Faults{Rules: []Rule{{Height: uint64(c - 1), Epoch: 1, Action: "hash-altered", Times: 1}}}}
 }
 
+// forgedScenario: a lying source that serves SELF-CONSISTENT forged successors for a while (every
+// block with an empty state diff once with another claimed state root, and random forged kinds, see
+// forge()), then turns honest (Budget). Half of the source's blocks have an empty state diff. Some
+// cases continue with a reorg. Nothing forged may ever be stored; the node must converge.
+func forgedScenario(seed uint64, dstNew bool) Scenario {
+	r := lib.NewRNG(seed)
+	pre := r.Range(0, 3)
+	n := pre + r.Range(5, 9)
+	sc := Scenario{Kind: "forged", Seed: seed, SrcNew: seed%2 == 0, DstNew: dstNew, Procs: lib.Pick(r, []int{1, 2, 0}), Prestore: pre, StartEpoch: 0,
+		Epochs: []EpochSpec{{Add: n}}, EmptyDiffPct: 50,
+		Faults: Faults{ForgePct: 35, Budget: 2, ForgeTwin: seed%3 == 0,
+			Rules: []Rule{{AnyEmpty: true, Epoch: 0, Action: "forged-root", Times: 4}}}}
+	if seed%4 == 1 {
+		sc.Epochs = append(sc.Epochs, EpochSpec{Depth: r.Range(1, 3), Add: r.Range(1, 4)})
+		sc.Triggers = []Trigger{{AtStores: r.Range(2, n-pre), AtReq: 400}}
+		sc.Faults.Rules = append(sc.Faults.Rules, Rule{AnyEmpty: true, Epoch: 1, Action: "forged-root", Times: 2})
+	}
+	if seed%5 == 2 {
+		sc.ViaFeeder = true
+	}
+	return sc
+}
+
 func dynamicScenario(r *lib.RNG, i int) Scenario {
 	sc := Scenario{Kind: "dynamic", Seed: r.Uint64() >> 1, SrcNew: r.Bool(), DstNew: r.Bool()}
 	n0 := r.Range(1, 12)
@@ -970,6 +1100,8 @@ func dynamicScenario(r *lib.RNG, i int) Scenario {
 		sc.Faults = Faults{ErrPct: 15, DelayPct: 25, MaxDelayUs: 800, CorruptPct: 15, WrongNumPct: 8, StalePct: 30, Budget: 3}
 		if i%2 == 0 {
 			sc.Faults.LieLatestPct, sc.Faults.LieHashPct = 10, 8
+		} else {
+			sc.Faults.ForgePct = 8 // self-consistent forged blocks among everything else
 		}
 	}
 	if i%6 == 5 {
@@ -1048,6 +1180,9 @@ func main() {
 			scs = append(scs, wrongNumScenario(f.Seed*79+uint64(i), i%2 == 1))
 			scs = append(scs, lieScenario(f.Seed*83+uint64(i), i%2 == 0, i%2 == 1))
 			scs = append(scs, hashLieScenario(f.Seed*89+uint64(i), i%2 == 1))
+			for j := 0; j < 6; j++ {
+				scs = append(scs, forgedScenario(f.Seed*97+uint64(i*6+j), (i+j)%2 == 0))
+			}
 		}
 	}
 	// group by GOMAXPROCS (a process-wide setting)
@@ -1193,6 +1328,13 @@ func main() {
 	if f.Replay == "" && res.Distribution["kind:race"] > 0 && res.Distribution["violations"] == 0 &&
 		res.Distribution["race:stale-successor-of-a-stored-new-head-existed(head kept)"] == 0 && len(res.Violations) == 0 {
 		res.Fatalf("none of the %d directed race cases produced the interleaving (old successor in flight while the new head is stored)", res.Distribution["kind:race"])
+	}
+	if f.Replay == "" && len(res.Violations) == 0 {
+		for _, be := range []string{"false", "true"} {
+			if res.Distribution["forged:refused-by-Store(dst-new-state="+be+")"] == 0 || res.Distribution["forged:empty-diff-root-refused-by-Store(dst-new-state="+be+")"] == 0 {
+				res.Fatalf("no self-consistent forged block (empty-diff block with another claimed state root) reached Store on the backend dst_new_state=%s: the store-time root check was not exercised", be)
+			}
+		}
 	}
 	if skipped > 0 {
 		res.Note("%d cases not run after repeated hangs / lost notifications (violations recorded above)", skipped)
